@@ -76,24 +76,24 @@ static uint64_t f_exponential(int a) { static const double p[3] = { 1.0, 0.25, 4
 static uint64_t f_erlang(int a) { static const unsigned k[3] = { 1, 4, 8 }; static const double m[3] = { 1.0, 0.5, 2.0 }; return dbits(cmb_random_erlang(k[a], m[a])); }
 static uint64_t f_hypoexp(int a) { return dbits(cmb_random_hypoexponential((unsigned)(a + 1), hypo_m)); }
 static uint64_t f_hyperexp(int a) { (void)a; return dbits(cmb_random_hyperexponential(3, hyper_m, hyper_p)); }
-static uint64_t f_std_gamma(int a) { static const double p[3] = { 2.5, 0.7, 11.0 }; return dbits(cmb_random_std_gamma(p[a])); }
-static uint64_t f_gamma(int a) { static const double p[3][2] = { { 0.5, 2.0 }, { 3.0, 1.5 }, { 1.0, 1.0 } }; return dbits(cmb_random_gamma(p[a][0], p[a][1])); }
-static uint64_t f_std_beta(int a) { static const double p[3][2] = { { 2, 3 }, { 0.5, 0.5 }, { 5, 1 } }; return dbits(cmb_random_std_beta(p[a][0], p[a][1])); }
+static uint64_t f_std_gamma(int a) { static const double p[6] = { 2.5, 0.7, 11.0, 1.7, 0.5, 1.5 }; return dbits(cmb_random_std_gamma(p[a])); }
+static uint64_t f_gamma(int a) { static const double p[5][2] = { { 0.5, 2.0 }, { 3.0, 1.5 }, { 1.0, 1.0 }, { 1.5, 2.0 }, { 2.0, 1.0 } }; return dbits(cmb_random_gamma(p[a][0], p[a][1])); }
+static uint64_t f_std_beta(int a) { static const double p[5][2] = { { 2, 3 }, { 0.5, 0.5 }, { 5, 1 }, { 1.5, 0.5 }, { 0.5, 1.5 } }; return dbits(cmb_random_std_beta(p[a][0], p[a][1])); }
 static uint64_t f_beta(int a) { static const double p[3][4] = { { 2, 3, 0, 10 }, { 0.5, 0.5, -1, 1 }, { 5, 1, 100, 101 } }; return dbits(cmb_random_beta(p[a][0], p[a][1], p[a][2], p[a][3])); }
 static uint64_t f_pert_mod(int a) { static const double p[3][4] = { { 0, 1, 4, 4 }, { -1, 0.5, 2, 2 }, { 10, 11, 20, 6 } }; return dbits(cmb_random_PERT_mod(p[a][0], p[a][1], p[a][2], p[a][3])); }
 static uint64_t f_pert(int a) { static const double p[3][3] = { { 0, 1, 4 }, { -1, 0.5, 2 }, { 10, 11, 20 } }; return dbits(cmb_random_PERT(p[a][0], p[a][1], p[a][2])); }
 static uint64_t f_weibull(int a) { static const double p[3][2] = { { 1, 1 }, { 2, 10 }, { 0.5, 3 } }; return dbits(cmb_random_weibull(p[a][0], p[a][1])); }
 static uint64_t f_pareto(int a) { static const double p[3][2] = { { 1.16, 1 }, { 3, 2 }, { 0.5, 10 } }; return dbits(cmb_random_pareto(p[a][0], p[a][1])); }
-static uint64_t f_chisq(int a) { static const double p[3] = { 1.0, 2.0, 7.5 }; return dbits(cmb_random_chisquared(p[a])); }
-static uint64_t f_fdist(int a) { static const double p[3][2] = { { 2, 3 }, { 5, 5 }, { 1, 10 } }; return dbits(cmb_random_F_dist(p[a][0], p[a][1])); }
+static uint64_t f_chisq(int a) { static const double p[4] = { 1.0, 2.0, 7.5, 3.0 }; return dbits(cmb_random_chisquared(p[a])); }
+static uint64_t f_fdist(int a) { static const double p[5][2] = { { 2, 3 }, { 5, 5 }, { 1, 10 }, { 3, 1 }, { 1, 3 } }; return dbits(cmb_random_F_dist(p[a][0], p[a][1])); }
 static uint64_t f_std_t(int a) { static const double p[3] = { 1.0, 2.5, 30.0 }; return dbits(cmb_random_std_t_dist(p[a])); }
 static uint64_t f_tdist(int a) { static const double p[3][3] = { { 0, 1, 3 }, { 1, 2, 1 }, { -1, 0.5, 10 } }; return dbits(cmb_random_t_dist(p[a][0], p[a][1], p[a][2])); }
 static uint64_t f_rayleigh(int a) { static const double p[3] = { 1.0, 0.5, 10.0 }; return dbits(cmb_random_rayleigh(p[a])); }
 static uint64_t f_bernoulli(int a) { static const double p[3] = { 0.5, 0.0, 1.0 }; return (uint64_t)cmb_random_bernoulli(p[a]); }
-static uint64_t f_geometric(int a) { static const double p[3] = { 0.5, 0.1, 0.9 }; return (uint64_t)cmb_random_geometric(p[a]); }
+static uint64_t f_geometric(int a) { static const double p[4] = { 0.5, 0.1, 0.9, 1.0 }; return (uint64_t)cmb_random_geometric(p[a]); }
 static uint64_t f_binomial(int a) { static const unsigned n[3] = { 5, 16, 1 }; static const double p[3] = { 0.5, 0.1, 0.9 }; return (uint64_t)cmb_random_binomial(n[a], p[a]); }
-static uint64_t f_negbin(int a) { static const unsigned m[3] = { 3, 1, 8 }; static const double p[3] = { 0.5, 0.25, 0.9 }; return (uint64_t)cmb_random_negative_binomial(m[a], p[a]); }
-static uint64_t f_pascal(int a) { static const unsigned m[3] = { 2, 5, 1 }; static const double p[3] = { 0.5, 0.75, 0.1 }; return (uint64_t)cmb_random_pascal(m[a], p[a]); }
+static uint64_t f_negbin(int a) { static const unsigned m[4] = { 3, 1, 8, 2 }; static const double p[4] = { 0.5, 0.25, 0.9, 1.0 }; return (uint64_t)cmb_random_negative_binomial(m[a], p[a]); }
+static uint64_t f_pascal(int a) { static const unsigned m[4] = { 2, 5, 1, 3 }; static const double p[4] = { 0.5, 0.75, 0.1, 1.0 }; return (uint64_t)cmb_random_pascal(m[a], p[a]); }
 static uint64_t f_poisson(int a) { static const double p[3] = { 0.5, 2.0, 4.0 }; return (uint64_t)cmb_random_poisson(p[a]); }
 static uint64_t f_dice(int a) { static const long p[3][2] = { { 1, 6 }, { -5, 5 }, { 0, 1 } }; return (uint64_t)cmb_random_dice(p[a][0], p[a][1]); }
 static uint64_t f_loaded_dice(int a) { return (uint64_t)(a == 0 ? cmb_random_loaded_dice(3, hyper_p) : a == 1 ? cmb_random_loaded_dice(8, ld8) : cmb_random_loaded_dice(1, ld1)); }
@@ -226,6 +226,7 @@ int main(int argc, char **argv)
             out = fopen(argv[2], "a");
             if (out == NULL) _exit(2);
             signal(SIGABRT, crash_handler); signal(SIGSEGV, crash_handler); signal(SIGBUS, crash_handler); signal(SIGFPE, crash_handler);
+            signal(SIGALRM, crash_handler); alarm(300);
             alias_tab[0] = cmb_random_alias_create(3, hyper_p);
             alias_tab[1] = cmb_random_alias_create(8, ld8);
             alias_tab[2] = cmb_random_alias_create(1, ld1);
@@ -267,7 +268,7 @@ int main(int argc, char **argv)
                     o->kind = K_CALL; o->f = -1;
                     for (int i = 0; i < NF; i++) if (strcmp(ftab[i].name, name) == 0) o->f = i;
                     if (o->f < 0) bad_script(ln, "unknown function");
-                    if (o->a < 0 || o->a > 2) bad_script(ln, "parameter set");
+                    if (o->a < 0 || o->a > 5) bad_script(ln, "parameter set");
                 }
                 else bad_script(ln, "unreadable line");
                 if (o->t < 1 || o->t > H.nt) bad_script(ln, "thread id");
